@@ -208,3 +208,15 @@ func ToksString(ts []Tok) string {
 	}
 	return strings.Join(ss, " ")
 }
+
+// asciiLower lower-cases A-Z only, which is what HTML tokenisation and the URL and rel-token
+// comparisons of a browser do (strings.ToLower would also fold U+0130 and the Kelvin sign).
+func asciiLower(s string) string {
+	b := []byte(s)
+	for i, c := range b {
+		if 'A' <= c && c <= 'Z' {
+			b[i] = c + 'a' - 'A'
+		}
+	}
+	return string(b)
+}
